@@ -56,6 +56,15 @@ func libEncode(m model.Message) ([]byte, *message.IKEMessage, error) {
 	if err != nil {
 		return nil, lm, fmt.Errorf("Encode: %w", err)
 	}
+	// encoding reads the message; it must not have written to it (a library that append()s to one of the caller's slices
+	// clobbers the neighbouring field when the slices share a backing array, see bridge.Arena)
+	var after model.Message
+	if err := probe.Try(func() error { var e error; after, e = bridge.FromLib(lm); return e }); err != nil {
+		return nil, lm, fmt.Errorf("reading the message back after Encode: %w", err)
+	}
+	if d := model.Diff(m, after); d != "" {
+		return nil, lm, fmt.Errorf("Encode altered the message it was given: %s", d)
+	}
 	return w, lm, nil
 }
 
